@@ -8,11 +8,11 @@ from vlib import *
 
 RULE = ('Poisson stream: h = k/4 (k in 1..40), p = k/4 (1..200), K = k/4 (1..400) or (15%) arbitrary binary64 values, integer demand '
         'mean 1..30, lead time in {1/4, 1/2, 1, 2, 3} or (20%) k/10; r_q_poisson_exact plus r_q_cost_poisson at 3 random integer '
-        'pairs (r possibly negative); 25% small-K regime (K <= 1, h >= 5: optimal Q in 1..3); 35% of the calls repeat the previous call with one parameter changed '
+        'pairs (r possibly negative); 25% small-K regime (K <= 1, h >= 5: optimal Q in 1..3); 20% low-critical-ratio regime (p < h, i.e. p/(p+h) < 1/2: S below floor(mu), down to S = 0 / r = -1; K tiny, small or ordinary; lambda 2..30); 35% of the calls repeat the previous call with one parameter changed '
         '(call sequences in one process; 15 earlier calls are repeated at the end and must return bit-identical results); exact-tie stream (lambda = 1, K chosen so that c(1) = c(2) exactly in binary64); malformed '
         'stream (non-positive costs, negative mean / lead time, Q <= 0, non-integer r or Q, zero lead-time demand). '
         'Normal stream: h, p, K floats, mean 50..2000, cv 0.05..0.4, lead time in {1/12, 1/4, 1/2, 1, 2}: r_q_cost at random (r,Q), '
-        'r_q_optimal_r_for_q, the four approximations (8% with p << h and large K, where the EIL equations have no solution; 27% with p/h in [1.2, 3] and K in 20..500, reorder point below mean lead-time demand; 30% siblings of the previous call). non-trivial (Poisson) = the returned window was extended at least once to '
+        'r_q_optimal_r_for_q, the four approximations (8% with p << h and large K, where the EIL equations have no solution; 27% with p/h in [1.2, 3] and K in 20..500, reorder point below mean lead-time demand; 30% siblings of the previous call; 30% with h, p, K scaled by 1e-2..1e-5 (small unit costs, flat g)); every normal case additionally calls r_q_optimal_r_for_q with a CALLER-SUPPLIED tol in 1e-2..1e-12 (raised to 1000 x the binary64 resolution of g(r)-g(r+Q) when below it) at Q = 0.3..2 EOQ and checks |g(r)-g(r+Q)| <= tol with that tol (and the bit-for-bit transcription of the bisection), r_q_eil_approximation with tol in {1e-3,1e-4,1e-5,1e-8,1e-9} and r_q_loss_function_approximation with tol in {1e-3,1e-4,1e-5}. non-trivial (Poisson) = the returned window was extended at least once to '
         'each side of S; distinct = distinct parameter tuples.')
 
 BIG = Fraction(10) ** 30
@@ -94,6 +94,14 @@ def gen_poisson(rng, prev=None):
         regime = 'smallK'
         K = rng.choice([rng.uniform(0.005, 0.5), rng.randint(1, 16) / 16]); h = q4(20, 120); p = q4(40, 800)
         lam = rng.choice([1, 1.5, 2, 3, rng.randint(1, 8)])
+    elif rng.random() < 0.27:
+        # stockout cost BELOW holding cost (critical ratio p/(p+h) < 1/2): the newsvendor level S lies below the median /
+        # floor(mu) of the lead-time demand (down to S = 0, r = -1); fixed cost from tiny (window stays left of floor(mu))
+        # to ordinary (window reaches over the mean)
+        regime = 'lowcr'
+        h = q4(4, 160); p = rng.choice([q4(1, max(1, int(4 * h) - 1)), round(h * rng.uniform(0.02, 0.95), 3)])
+        K = rng.choice([q4(1, 20), rng.uniform(0.05, 3), q4(1, 400)])
+        lam = rng.choice([rng.randint(2, 30), rng.randint(8, 30)])
     return dict(kind='poisson', h=h, p=p, K=K, lam=lam, L=L, regime=regime)
 
 
@@ -221,6 +229,7 @@ def explore_poisson(chk, n, ntie, do_model=True):
         ymax = int(mu + 12 * math.sqrt(mu) + 3 * Qmax + 60)
         og = PoisG(c['h'], c['p'], mu, ymax)
         S, Smargin = og.S()
+        chk.count('S<floor(mu)' if S < int(mu) else 'S>=floor(mu)')
         for sig, what in oracle_poisson(c, res, og, S, Smargin):
             chk.fail(sig, what, c)
         # evaluator at random pairs
@@ -358,11 +367,14 @@ def explore_malformed(chk, n):
 def gen_normal(rng, prev=None):
     if prev is not None and rng.random() < 0.3:
         c = {k: prev[k] for k in ('kind', 'h', 'p', 'K', 'lam', 'sd', 'L')}
+        sc = prev.get('scale', 1)
+        if sc != 1: c['scale'] = sc
         which = rng.choice(['L', 'lam', 'sd', 'K', 'p'])
         c[which] = {'L': rng.choice([1 / 12, 0.25, 0.5, 1, 2, 3]), 'lam': rng.randint(50, 2000), 'sd': round(c['lam'] * rng.uniform(0.05, 0.4), 2),
-                    'K': round(rng.uniform(1, 500), 2), 'p': round(c['h'] * rng.uniform(1.2, 60), 3)}[which]
+                    'K': round(rng.uniform(1, 500), 2) * sc, 'p': round(c['h'] / sc * rng.uniform(1.2, 60), 3) * sc}[which]
         c['sibling'] = which
         c['prelude'] = (prev.get('prelude', []) + [{k: prev[k] for k in ('kind', 'h', 'p', 'K', 'lam', 'sd', 'L')}])[-3:]
+        c['tolreq'] = gen_tolreq(rng)
         return c
     h = round(rng.uniform(0.05, 5), 3); p = round(h * rng.uniform(2, 60), 3); K = round(rng.uniform(1, 200), 2)
     u = rng.random()
@@ -371,7 +383,19 @@ def gen_normal(rng, prev=None):
     elif u < 0.35:    # p close to h and sizeable K: reorder point below the mean lead-time demand (negative safety stock)
         p = round(h * rng.uniform(1.2, 3), 3); K = round(rng.uniform(20, 500), 2)
     lam = rng.randint(50, 2000); sd = round(lam * rng.uniform(0.05, 0.4), 2); L = rng.choice([1 / 12, 0.25, 0.5, 1, 2])
-    return dict(kind='normal', h=h, p=p, K=K, lam=lam, sd=sd, L=L)
+    if rng.random() < 0.3:
+        # small unit costs (money in thousands / millions): same (r,Q) geometry, but g is flat in absolute terms, so an absolute
+        # tolerance of 1e-6 pins r(Q) down only loosely and callers pass a tighter `tol`
+        sc = rng.choice([1e-2, 1e-3, 1e-4, 1e-5]); h, p, K = h * sc, p * sc, K * sc
+        return dict(kind='normal', h=h, p=p, K=K, lam=lam, sd=sd, L=L, scale=sc, tolreq=gen_tolreq(rng))
+    return dict(kind='normal', h=h, p=p, K=K, lam=lam, sd=sd, L=L, tolreq=gen_tolreq(rng))
+
+
+def gen_tolreq(rng):
+    """caller-supplied `tol` of r_q_optimal_r_for_q / the iterative approximations: exponent (tighter and looser than the default 1e-6)
+    and the Q (as a multiple of the EOQ) at which r(Q) is requested"""
+    return dict(tol=10.0 ** -rng.choice([2, 3, 4, 5, 7, 7, 8, 8, 9, 9, 10, 11, 12]), qf=round(rng.uniform(0.3, 2.0), 3),
+                tol_fp=10.0 ** -rng.choice([3, 4, 5, 8, 9]))
 
 
 def bisect_mirror(gfun, S, Q, tol, maxit=5000):
@@ -416,11 +440,16 @@ def oracle_normal(chk, c):
             chk.fail('r_q_cost|not-the-documented-integral', 'r_q_cost(r=%.6g,Q=%.6g)=%.12g but (K lam + int g)/Q = %.12g' % (r, Q, v, own), dict(cc, r=r, Q=Q))
     # --- r_q_optimal_r_for_q
     tol = 1e-6
-    def check_r_for_q(r, Q, who):
+    def check_r_for_q(r, Q, who, tol=tol, slack=None):
         d = og(r) - og(r + Q)
-        if not abs(d) <= tol * (1 + 1e-6) + 1e-9 * max(1.0, abs(og(r))):
-            chk.fail('%s|g(r)!=g(r+Q)' % who, 'Q=%.8g r=%.8g: g(r)-g(r+Q)=%.3g exceeds tol' % (Q, r, d), dict(cc, Q=Q)); return
-        if not (S - 5 * Q - 1e-9 * abs(S) <= r <= S + 1e-9 * abs(S) <= r + Q + 2e-9 * abs(S)):
+        if slack is None: slack = 1e-9 * max(1.0, abs(og(r)))
+        if not abs(d) <= tol * (1 + 1e-6) + slack:
+            chk.fail('%s|g(r)!=g(r+Q)' % who, 'Q=%.8g r=%.8g tol=%g: g(r)-g(r+Q)=%.3g exceeds tol' % (Q, r, tol, d), dict(cc, Q=Q)); return
+        # S <= r+Q is forced (convex g) when g(S-Q) - g(S) > tol; it was always demanded on the original regimes (default tol,
+        # ordinary cost scale), where that gap is large; with small unit costs or a loose caller tolerance it is demanded only
+        # when the gap condition holds (otherwise the documented stopping rule can be met left of S: not a violation)
+        need_right = (tol == 1e-6 and 'scale' not in c) or og(S - Q) - og(S) > tol * (1 + 1e-6) + slack
+        if not (S - 5 * Q - 1e-9 * abs(S) <= r <= S + 1e-9 * abs(S)) or (need_right and not S + 1e-9 * abs(S) <= r + Q + 2e-9 * abs(S)):
             chk.fail('%s|r-outside-bracket' % who, 'Q=%.8g r=%.8g S=%.8g: need S-5Q <= r <= S <= r+Q' % (Q, r, S), dict(cc, Q=Q)); return
         c0 = cost(r, Q)
         for dlt in (-0.3, -0.03, -0.003, 0.003, 0.03, 0.3):
@@ -437,33 +466,62 @@ def oracle_normal(chk, c):
         chk.traces += 1
         if rm is None or float(rm) != r:
             chk.mismatch('bisection: transcription of the model gives r=%r, implementation %r' % (rm, r), dict(cc, Q=Q))
+    # --- r_q_optimal_r_for_q with a caller-supplied tolerance (documented stopping rule |g(r) - g(r+Q)| <= tol)
+    tr = c.get('tolreq')
+    if tr:
+        Qt = Qe * tr['qf']
+        Simpl = newsvendor_normal(h, p, mu, sigma)[0]
+        # binary64 resolution of g(r) - g(r+Q) on the bracket: a tolerance below it can never be met (the loop of the implementation
+        # has no iteration limit), so the requested tolerance is raised to 1000 x that resolution
+        noise = 1e-15 * (h + p) * (abs(Simpl) + 6 * Qt + abs(mu) + sigma)
+        tolc = max(tr['tol'], 1000 * noise)
+        chk.count('tol_requested=%s' % ('default' if tolc == 1e-6 else 'tighter' if tolc < 1e-6 else 'looser'))
+        gi = lambda x: newsvendor_normal_cost(x, h, p, mu, sigma)
+        rm = bisect_mirror(gi, Simpl, Qt, tolc)
+        if rm is None:      # (not observed) the transcription does not stop within 5000 halvings: do not call the implementation
+            chk.extra['tol_below_resolution_skipped'] = chk.extra.get('tol_below_resolution_skipped', 0) + 1
+        else:
+            r = call('r_q_optimal_r_for_q', lambda *a: rq.r_q_optimal_r_for_q(*a, tol=tolc), Qt, h, p, lam, sd, L)
+            if r is not None:
+                r = float(r)
+                check_r_for_q(r, Qt, 'r_q_optimal_r_for_q(tol)', tol=tolc, slack=min(10 * noise, 1e-9 * max(1.0, abs(og(r)))))
+                chk.traces += 1
+                if float(rm) != r:
+                    chk.mismatch('bisection with tol=%g: transcription of the model gives r=%r, implementation %r' % (tolc, rm, r), dict(cc, Q=Qt))
     # --- approximations
-    v = call('r_q_eil_approximation', rq.r_q_eil_approximation, *args)
-    if v is not None:
-        r, Q, cst = map(float, v)
-        if math.isnan(r) or math.isnan(Q):
-            chk.extra['eil_nan_outputs'] = chk.extra.get('eil_nan_outputs', 0) + 1
-            if EIL_NAN_IS_FAILURE: chk.fail('r_q_eil_approximation|nan', 'returns nan', cc)
-        else:
-            n = og.n(r)
-            chk.count('eil_r<mu' if r < mu else 'eil_r>=mu')
-            if not close(h * Q * Q, 2 * lam * (K + p * n)):
-                chk.fail('r_q_eil_approximation|Q-equation', 'h Q^2=%.12g vs 2 lam (K + p n(r))=%.12g' % (h * Q * Q, 2 * lam * (K + p * n)), cc)
-            if abs(og.cdf(r) - (1 - Q * h / (p * lam))) > (h / (p * lam)) * tol * 1.01 + 1e-9:
-                chk.fail('r_q_eil_approximation|r-equation', 'F(r)=%.12g vs 1 - Q h/(p lam)=%.12g' % (og.cdf(r), 1 - Q * h / (p * lam)), cc)
-            own = h * (r - mu + Q / 2) + K * lam / Q + p * lam * n / Q
-            if not close(own, cst):
-                chk.fail('r_q_eil_approximation|cost', 'reported %.12g, formula %.12g' % (cst, own), cc)
-    v = call('r_q_loss_function_approximation', rq.r_q_loss_function_approximation, *args)
-    if v is not None:
-        r, Q = map(float, v)
-        if math.isnan(r) or math.isnan(Q):
-            chk.extra['lossfn_nan_outputs'] = chk.extra.get('lossfn_nan_outputs', 0) + 1
-        else:
-            if not close(h * Q * Q, 2 * (K * lam + (h + p) * og.n2(r))):
-                chk.fail('r_q_loss_function_approximation|Q-equation', 'h Q^2=%.12g vs 2 (K lam + (h+p) n2(r))=%.12g' % (h * Q * Q, 2 * (K * lam + (h + p) * og.n2(r))), cc)
-            if abs(og.n(r) - h * Q / (h + p)) > (h / (h + p)) * tol * 1.01 + 1e-7 * max(1.0, h * Q / (h + p)):
-                chk.fail('r_q_loss_function_approximation|r-equation', 'n(r)=%.12g vs h Q/(h+p)=%.12g' % (og.n(r), h * Q / (h + p)), cc)
+    # default tolerance, then (new) a caller-supplied one: tighter or looser for EIL, looser only for the loss-function iteration
+    # (its inner fsolve has a relative x-tolerance of 1.49e-8, so a tighter outer tolerance is not meaningful there)
+    tfp = tr['tol_fp'] if tr else None
+    for tl in [None] + ([tfp] if tfp else []):
+        if tl is None: v = call('r_q_eil_approximation', rq.r_q_eil_approximation, *args); who = 'r_q_eil_approximation'; tl = tol
+        else: v = call('r_q_eil_approximation', lambda *a: rq.r_q_eil_approximation(*a, tol=tl), *args); who = 'r_q_eil_approximation(tol)'
+        if v is not None:
+            r, Q, cst = map(float, v)
+            if math.isnan(r) or math.isnan(Q):
+                chk.extra['eil_nan_outputs'] = chk.extra.get('eil_nan_outputs', 0) + 1
+                if EIL_NAN_IS_FAILURE: chk.fail('r_q_eil_approximation|nan', 'returns nan', cc)
+            else:
+                n = og.n(r)
+                if who == 'r_q_eil_approximation': chk.count('eil_r<mu' if r < mu else 'eil_r>=mu')
+                if not close(h * Q * Q, 2 * lam * (K + p * n)):
+                    chk.fail('%s|Q-equation' % who, 'h Q^2=%.12g vs 2 lam (K + p n(r))=%.12g' % (h * Q * Q, 2 * lam * (K + p * n)), cc)
+                if abs(og.cdf(r) - (1 - Q * h / (p * lam))) > (h / (p * lam)) * tl * 1.01 + 1e-9:
+                    chk.fail('%s|r-equation' % who, 'tol=%g: F(r)=%.12g vs 1 - Q h/(p lam)=%.12g' % (tl, og.cdf(r), 1 - Q * h / (p * lam)), cc)
+                own = h * (r - mu + Q / 2) + K * lam / Q + p * lam * n / Q
+                if not close(own, cst):
+                    chk.fail('%s|cost' % who, 'reported %.12g, formula %.12g' % (cst, own), cc)
+    for tl in [None] + ([tfp] if tfp and tfp >= 1e-5 else []):
+        if tl is None: v = call('r_q_loss_function_approximation', rq.r_q_loss_function_approximation, *args); who = 'r_q_loss_function_approximation'; tl = tol
+        else: v = call('r_q_loss_function_approximation', lambda *a: rq.r_q_loss_function_approximation(*a, tol=tl), *args); who = 'r_q_loss_function_approximation(tol)'
+        if v is not None:
+            r, Q = map(float, v)
+            if math.isnan(r) or math.isnan(Q):
+                chk.extra['lossfn_nan_outputs'] = chk.extra.get('lossfn_nan_outputs', 0) + 1
+            else:
+                if not close(h * Q * Q, 2 * (K * lam + (h + p) * og.n2(r))):
+                    chk.fail('%s|Q-equation' % who, 'h Q^2=%.12g vs 2 (K lam + (h+p) n2(r))=%.12g' % (h * Q * Q, 2 * (K * lam + (h + p) * og.n2(r))), cc)
+                if abs(og.n(r) - h * Q / (h + p)) > (h / (h + p)) * tl * 1.01 + 1e-7 * max(1.0, h * Q / (h + p)):
+                    chk.fail('%s|r-equation' % who, 'tol=%g: n(r)=%.12g vs h Q/(h+p)=%.12g' % (tl, og.n(r), h * Q / (h + p)), cc)
     v = call('r_q_eoqb_approximation', rq.r_q_eoqb_approximation, *args)
     if v is not None:
         r, Q = map(float, v)
@@ -483,7 +541,7 @@ def explore_normal(chk, n):
     prev = None
     for _ in range(n):
         c = gen_normal(chk.rng, prev); prev = c
-        chk.count('kind=normal'); chk.count('normal_sibling=%s' % c.get('sibling', '-'))
+        chk.count('kind=normal'); chk.count('normal_sibling=%s' % c.get('sibling', '-')); chk.count('normal_cost_scale=%g' % c.get('scale', 1))
         oracle_normal(chk, c)
         chk.case(c, False)
 
